@@ -442,3 +442,18 @@ Lemma ex_project_ok :
   = [ (L "start_download", Some [(L "url", false); (L "onProgress", false)]);
       (L "download", Some [(L "fileId", false); (L "destPath", true)]) ].
 Proof. vm_compute. split; reflexivity. Qed.
+
+(* ---------- histories: after every run, every command has the keys its current state demands ---------- *)
+Theorem history_keys_thm (h : list run_step) :
+  (forall s, In s h -> project_dom (r_project s) = true) ->
+  forall s out, In (s, out) (combine h (run_history h)) ->
+  forall c r, In (c, r) out -> kf_any (r_cfg s) c = false ->
+  exists g l, r = Ok g /\ invoke_keys g = Some l /\ Permutation (kb_of l) (spec_keys (r_cfg s) c).
+Proof.
+  intros Hd s out Hin c r Hc Hk. unfold run_history in Hin.
+  assert (out = after_run s /\ In s h) as [-> Hs].
+  { clear -Hin. induction h as [|a h IH]; [destruct Hin|]. cbn in Hin. destruct Hin as [E|Hin].
+    - inversion E; subst. split; [reflexivity|left; reflexivity].
+    - destruct (IH Hin) as [-> ?]. split; [reflexivity|right; assumption]. }
+  apply (project_keys_thm (r_cfg s) (r_mode s) (r_project s) (Hd s Hs) c r Hc Hk).
+Qed.
